@@ -32,7 +32,7 @@ type SpecP struct {
 	R         int32   `json:"r"`
 	Slots     []int32 `json:"slots,omitempty"`
 	Parallel  bool    `json:"parallel,omitempty"`
-	Strategy  int     `json:"strategy"` // 0 RollingUpdate{partition}, 1 RollingUpdate with nil block, 2 OnDelete, 3 OnDelete with a left-over rollingUpdate{partition} block (the CRD admits it)
+	Strategy  int     `json:"strategy"` // 0 RollingUpdate{partition}, 1 RollingUpdate with nil block, 2 OnDelete, 3 OnDelete with a left-over rollingUpdate{partition} block (the CRD admits it), 4 type omitted + rollingUpdate{partition}, 5 type and block omitted
 	Partition int32   `json:"partition,omitempty"`
 	Limit     int32   `json:"limit"`
 	Claims    int     `json:"claims,omitempty"`
@@ -76,6 +76,12 @@ type World struct {
 	// CloseLag: in the fair closing schedule the kubelet acts only after CloseLag extra reconciles of each
 	// round (so reconciles do observe terminating / not yet ready pods)
 	CloseLag int `json:"close_lag,omitempty"`
+	// Big (thorough tier only): wider ranges - replicas up to 9, slots and ordinals up to 16, longer histories
+	Big bool `json:"big,omitempty"`
+	// FreshController: the case starts on a controller object built for it instead of a pooled one, so that
+	// whatever the controller remembers between reconciles was learnt in this case (makes replays of cases that
+	// re-use a set's name reproducible)
+	FreshController bool `json:"fresh_controller,omitempty"`
 	// EventMode: every cache refresh of the history delivers its add/update/delete notifications through the
 	// handlers the controller registered, and the closing schedule is event-driven: a reconcile happens only
 	// for a key that an event put into the work queue (quiescence = queue empty, caches current)
@@ -137,6 +143,9 @@ type Op struct {
 	// reconcile only
 	Refresh   int    `json:"refresh,omitempty"`    // 0 full refresh before, 1 none (stale), 2 pods only, 3 set only
 	Perm      uint64 `json:"perm,omitempty"`       // cache list order
+	// Fault2 hits the Fault2Off-th call after the first fault, in the same reconcile (0 = none)
+	Fault2    int    `json:"fault2,omitempty"`
+	Fault2Off int    `json:"fault2_off,omitempty"`
 	FaultAt   int    `json:"fault_at,omitempty"`   // 1-based call index the fault hits; 0 = none; -1 = the first status write of the reconcile
 	Fault     int    `json:"fault,omitempty"`      // fault kind
 	InterAt   int    `json:"inter_at,omitempty"`   // 1-based call index before which an environment op runs; 0 = none
@@ -158,6 +167,9 @@ func (o Op) String() string {
 	switch o.K {
 	case OpReconcile:
 		s += fmt.Sprintf("(refresh=%d perm=%d", o.Refresh, o.Perm)
+		if o.FaultAt != 0 && o.Fault2 != 0 {
+			s += fmt.Sprintf(" fault2=%s@+%d", faultNames[o.Fault2], o.Fault2Off)
+		}
 		if o.FaultAt != 0 {
 			s += fmt.Sprintf(" fault=%s@%d", faultNames[o.Fault], o.FaultAt)
 		}
@@ -229,6 +241,11 @@ func applySpec(set *asv1.StatefulSet, s SpecP) {
 		p := s.Partition
 		set.Spec.UpdateStrategy = asv1.StatefulSetUpdateStrategy{Type: asv1.OnDeleteStatefulSetStrategyType,
 			RollingUpdate: &asv1.RollingUpdateStatefulSetStrategy{Partition: &p}}
+	case 4:
+		p := s.Partition
+		set.Spec.UpdateStrategy = asv1.StatefulSetUpdateStrategy{RollingUpdate: &asv1.RollingUpdateStatefulSetStrategy{Partition: &p}}
+	case 5:
+		set.Spec.UpdateStrategy = asv1.StatefulSetUpdateStrategy{}
 	}
 	l := s.Limit
 	set.Spec.RevisionHistoryLimit = &l
@@ -368,6 +385,8 @@ type Sys struct {
 	Trace []func() string
 	// OnRecord is invoked after every reconcile (monitors)
 	OnRecord func(r *sim.Record, op *Op)
+	// Fault2Hit: the last reconcile's second same-reconcile fault was reached
+	Fault2Hit bool
 	// counters
 	Reconciles int
 	// PVCFaulted: claim names hit by an injected claim fault in the running reconcile
@@ -396,7 +415,13 @@ func (s *Sys) Set() *asv1.StatefulSet { return s.C.Set(NS, s.Name) }
 // every revision is created by the real controller through legitimate reconciles), then gets its
 // real spec, an optionally re-pointed status.currentRevision and the constructed pod population.
 func BuildWorld(rep Rep, w *World) *Sys {
+	if w.Big {
+		rep.Label("big-world")
+	}
 	c := sim.New()
+	if w.FreshController {
+		c.Restart()
+	}
 	s := &Sys{C: c, W: w, Name: w.Spec.Name, Key: NS + "/" + w.Spec.Name, RevOf: map[int]string{}}
 	zero := w.Spec
 	zero.R = 0
@@ -598,10 +623,16 @@ func (s *Sys) envOp(k, a, b int) {
 		s.logf("refresh cache of set")
 	case OpEditReplicas:
 		v := int32(abs(a) % 6)
+		if s.W != nil && s.W.Big {
+			v = int32(abs(a) % 10)
+		}
 		c.UpdateSet(NS, s.Name, func(x *asv1.StatefulSet) { x.Spec.Replicas = &v })
 		s.logf("user: replicas=%d", v)
 	case OpEditSlotAdd:
 		k := int32(abs(a) % 9)
+		if s.W != nil && s.W.Big {
+			k = int32((abs(a) + 21*abs(b)) % 17)
+		}
 		c.UpdateSet(NS, s.Name, func(x *asv1.StatefulSet) {
 			sl := helper.GetDeleteSlots(x)
 			sl.Insert(k)
@@ -690,6 +721,9 @@ func (s *Sys) envOp(k, a, b int) {
 	case OpAddOrphanPod:
 		if set := c.Set(NS, s.Name); set != nil {
 			ord := abs(a) % 9
+			if s.W != nil && s.W.Big {
+				ord = (abs(a) + 21*abs(b)) % 17
+			}
 			name := fmt.Sprintf("%s-%d", s.Name, ord)
 			if c.Pod(NS, name) == nil {
 				img := set.Spec.Template.Spec.Containers[0].Image
@@ -720,8 +754,19 @@ func (s *Sys) envOp(k, a, b int) {
 			n.CreationTimestamp = metav1.Time{}
 			n.Generation = 1
 			n.Status = asv1.StatefulSetStatus{}
+			how := ""
+			if abs(a)%3 == 0 && n.Spec.Selector != nil && n.Spec.Selector.MatchLabels != nil {
+				// the new incarnation selects differently (its template follows, as validation demands)
+				era := fmt.Sprint(abs(b) % 2)
+				n.Spec.Selector.MatchLabels["era"] = era
+				if n.Spec.Template.Labels == nil {
+					n.Spec.Template.Labels = map[string]string{}
+				}
+				n.Spec.Template.Labels["era"] = era
+				how = ", selector now " + metav1.FormatLabelSelector(n.Spec.Selector)
+			}
 			c.Put(n)
-			s.logf("user: set deleted and re-created (new uid %s)", c.Set(NS, s.Name).UID)
+			s.logf("user: set deleted and re-created (new uid %s%s)", c.Set(NS, s.Name).UID, how)
 		}
 	case OpSetRemove:
 		if c.Remove(sim.GVRASts, NS, s.Name) {
@@ -774,6 +819,8 @@ func (s *Sys) Reconcile(op *Op) *sim.Record {
 	c.ListPerm = op.Perm
 	n := 0
 	faultDone, interDone := false, false
+	fault1At, fault2Done := 0, false
+	s.Fault2Hit = false
 	pvcCreates, pvcLookups := 0, 0
 	podRejected := false
 	s.PVCFaulted = nil
@@ -822,7 +869,13 @@ func (s *Sys) Reconcile(op *Op) *sim.Record {
 		}
 		if op.FaultAt > 0 && n == op.FaultAt && !faultDone {
 			faultDone = true
+			fault1At = n
 			return s.makeFault(op.Fault, a)
+		}
+		if op.Fault2 != 0 && faultDone && fault1At > 0 && n == fault1At+op.Fault2Off && !fault2Done {
+			fault2Done = true
+			s.Fault2Hit = true
+			return s.makeFault(op.Fault2, a)
 		}
 		if op.FaultAt == -1 && !faultDone && a.Resource == "statefulsets" && a.Subresource == "status" && a.Verb == "update" {
 			faultDone = true
@@ -886,7 +939,13 @@ func (s *Sys) Run(op *Op) {
 // ---------------------------------------------------------------------------------------------
 // generators
 
-func genSpec(rt *rapid.T, maxR int) SpecP {
+func genSpec(rt *rapid.T, maxR int) SpecP { return genSpecSized(rt, maxR, false) }
+
+func genSpecSized(rt *rapid.T, maxR int, big bool) SpecP {
+	maxSlot, slotCounts, partitions := 8, []int{0, 0, 1, 1, 2, 3}, []int{0, 0, 0, 1, 2, 3, 4, 6, 9}
+	if big {
+		maxR, maxSlot, slotCounts, partitions = 9, 16, []int{0, 1, 2, 3, 4, 6}, []int{0, 0, 1, 2, 3, 5, 8, 11, 14, 17}
+	}
 	s := SpecP{
 		Name:     rapid.SampledFrom([]string{"web", "web", "web-1", "a", "db-0-x"}).Draw(rt, "name"),
 		R:        int32(rapid.IntRange(0, maxR).Draw(rt, "replicas")),
@@ -895,17 +954,17 @@ func genSpec(rt *rapid.T, maxR int) SpecP {
 		Limit:    rapid.SampledFrom([]int32{0, 1, 2, 3, 10, 10}).Draw(rt, "limit"),
 		Claims:   rapid.SampledFrom([]int{0, 0, 0, 1, 2}).Draw(rt, "claims"),
 	}
-	ns := rapid.SampledFrom([]int{0, 0, 1, 1, 2, 3}).Draw(rt, "nslots")
+	ns := rapid.SampledFrom(slotCounts).Draw(rt, "nslots")
 	seen := map[int32]bool{}
 	for i := 0; i < ns; i++ {
-		k := int32(rapid.IntRange(0, 8).Draw(rt, "slot"))
+		k := int32(rapid.IntRange(0, maxSlot).Draw(rt, "slot"))
 		if !seen[k] {
 			seen[k] = true
 			s.Slots = append(s.Slots, k)
 		}
 	}
 	if s.Strategy == 0 || s.Strategy == 3 {
-		s.Partition = int32(rapid.SampledFrom([]int{0, 0, 0, 1, 2, 3, 4, 6, 9}).Draw(rt, "partition"))
+		s.Partition = int32(rapid.SampledFrom(partitions).Draw(rt, "partition"))
 	}
 	if s.Claims > 0 {
 		s.ClaimLabels = rapid.IntRange(0, 2).Draw(rt, "claimLabels") == 0
@@ -927,12 +986,17 @@ func genHist(rt *rapid.T) []int {
 }
 
 // genPods draws a constructed pod population over ordinals 0..8 (by construction, no rejection).
-func genPods(rt *rapid.T, histLen int, orphans bool) []PodP {
+func genPods(rt *rapid.T, histLen int, orphans bool) []PodP { return genPodsSized(rt, histLen, orphans, false) }
+
+func genPodsSized(rt *rapid.T, histLen int, orphans, big bool) []PodP {
 	var pods []PodP
 	// a fifth of the populations also reach two-digit ordinals (9..12): name order and numeric order differ there
 	maxOrd := 8
 	if rapid.IntRange(0, 4).Draw(rt, "twoDigitOrdinals") == 0 {
 		maxOrd = 12
+	}
+	if big {
+		maxOrd = 16
 	}
 	for ord := 0; ord <= maxOrd; ord++ {
 		// presence is biased towards low ordinals
@@ -942,6 +1006,9 @@ func genPods(rt *rapid.T, histLen int, orphans bool) []PodP {
 			limit = 3
 		}
 		if ord > 8 {
+			limit = 5
+		}
+		if big {
 			limit = 5
 		}
 		if pres >= limit {
@@ -1014,7 +1081,7 @@ func summarizeWorld(w World) map[string]interface{} {
 	for _, o := range w.Ops {
 		ops = append(ops, o.String())
 	}
-	return map[string]interface{}{"spec": w.Spec, "template_history": w.Hist, "cur_rev": w.CurRev, "pods": w.Pods, "ops": ops}
+	return map[string]interface{}{"spec": w.Spec, "template_history": w.Hist, "cur_rev": w.CurRev, "pods": w.Pods, "ops": ops, "big": w.Big}
 }
 
 // Converge runs the fair closing schedule (no faults, no user edits; each round = full cache
